@@ -146,6 +146,13 @@ func (ex *Exec) logEnvResults(st *State, entry string, res []Val) {
 								boff := mkSelect(ex.elemArr(st, sl.Elem(), k+1, res[0].L[0]), res[0].L[1])
 								row = mkStore(row, num(int64(extra)), composeLE(bytes, boff, 4))
 								extra++
+								// ... and all of those bytes (envrbyte)
+								rb := ex.comp(st, "envlog|rbytes", sArr(sInt, sArr(sInt, sInt)))
+								ex.setComp(st, "envlog|rbytes", sArr(sInt, sArr(sInt, sInt)), mkStore(rb, entry, bytes))
+								ro := ex.comp(st, "envlog|rboff", sArr(sInt, sInt))
+								ex.setComp(st, "envlog|rboff", sArr(sInt, sInt), mkStore(ro, entry, boff))
+								ex.noteWrite("envlog|rbytes", "*")
+								ex.noteWrite("envlog|rboff", "*")
 							}
 						}
 					}
@@ -498,7 +505,7 @@ func (ex *Exec) envlogFrame(before, after *State) {
 	if !ok {
 		n0 = ex.sc.global("H0_envlog_len", sInt)
 	}
-	for _, c := range []string{"envlog|kind", "envlog|arg", "envlog|bytes", "envlog|boff"} {
+	for _, c := range []string{"envlog|kind", "envlog|arg", "envlog|bytes", "envlog|boff", "envlog|rbytes", "envlog|rboff"} {
 		srt, known := ex.compSort[c]
 		if !known {
 			continue
